@@ -65,6 +65,32 @@ CLAIMED = {
         note=STATIC_NOTE + 'np.roots is trusted to return the roots of its argument; numerics of root finding and the '
              'low-density limit as a limit are not decided.',
         ref='DESIGN.md section 4 C20'),
+    'C04': dict(
+        technique='abstract interpretation of every dimensional getter and its dimensionless twin (enumerated from '
+                  'the class table through the MRO) into normal forms with uninterpreted species/mix atoms named by '
+                  'their arguments; identity check wrapper == twin*R(units)[*T] per unit string',
+        text='Decides for every dimensional getter of every mode class, StatMech, Nasa, Nasa9, Shomate, Reaction, '
+             'ChemkinReaction, SurfaceReaction and BEP (about 130 wrapper definitions, all (rev, act, state, '
+             'S_elements) variants) and for molar, per-molecule and per-mass unit strings of the R table that the '
+             'value equals the dimensionless twin times R in that unit (times T, with /K appended, for energies), '
+             'R per mass = R(molar)/(molar mass in that mass unit), under identical T, P and options - an option '
+             'that is not forwarded changes the normal form and is reported, as is a wrapper that raises where its '
+             'twin evaluates.',
+        note=STATIC_NOTE + 'pmutt.constants modelled as verified by C12; _force_pass_arguments by its documented '
+             'contract; numeric values and array T are not decided here.',
+        ref='DESIGN.md section 4 C04'),
+    'C08': dict(
+        technique='abstract interpretation of Reaction/ChemkinReaction/SurfaceReaction with uninterpreted species and '
+                  'symbolic stoichiometry; normal-form identities; effect check on caller dictionaries',
+        text='Decides as identities over arbitrary species functions and stoichiometric coefficients: each *_state '
+             'getter is the stoichiometry-weighted sum (product of powers for q) over the named state, each delta for '
+             'the four (rev, act) combinations is final minus initial, reversal flips the sign, forward minus reverse '
+             'activation equals the reaction change, unclamped *_act = delta(act), Keq = exp(-dG/RT) and Kf*Kr = 1, '
+             'per-species keyword blocks reach only that species, caller-supplied dictionaries are not modified, and '
+             'the network module\'s copy of the state evaluation agrees.',
+        note=STATIC_NOTE + 'Species getters are uninterpreted functions of the keyword arguments they accept; fixture '
+             'has 2 reactants, 2 products, 1 transition-state species (the loops are uniform in the species).',
+        ref='DESIGN.md section 4 C08'),
     'C12': dict(
         technique='table analysis: constant folding of literal tables + abstract interpretation of the '
                   'lookup functions (ast, exact Fractions)',
